@@ -14,11 +14,15 @@ const (
 	cOK     cstat = iota // Go conversion exists; result fixed
 	cErr                 // no conversion: the store must fail
 	cEither              // nil into a typed slot: Go has no such conversion, anko stores the zero value; both outcomes admitted
+	cUnspec              // two keys of an untyped map convert to the same typed key: the surviving value depends on map iteration order
 )
 
 func worse(a, b cstat) cstat {
 	if a == cErr || b == cErr {
 		return cErr
+	}
+	if a == cUnspec || b == cUnspec {
+		return cUnspec
 	}
 	if a == cEither || b == cEither {
 		return cEither
@@ -86,10 +90,16 @@ func conv(x interface{}, t reflect.Type) (reflect.Value, cstat) {
 			kv, ks := conv(it.Key().Interface(), t.Key())
 			vv, vs := conv(it.Value().Interface(), t.Elem())
 			st = worse(st, worse(ks, vs))
-			if st == cErr {
-				return reflect.Zero(t), cErr
+			if ks == cErr || vs == cErr {
+				continue // keep scanning: an error anywhere decides, whatever the order
+			}
+			if out.MapIndex(kv).IsValid() {
+				st = worse(st, cUnspec)
 			}
 			out.SetMapIndex(kv, vv)
+		}
+		if st == cErr {
+			return reflect.Zero(t), cErr
 		}
 		return out, st
 	}
@@ -378,6 +388,9 @@ func planWrite(t target, st *Step) outcome {
 		if cs == cErr {
 			return errOut("conv")
 		}
+		if cs == cUnspec {
+			return outcome{skip: "map_conversion_key_collision"}
+		}
 		o := outcome{mayErr: ix.float || cs == cEither, mutates: true}
 		if ix.n == int64(ln) {
 			tt := t
@@ -401,6 +414,9 @@ func planWrite(t target, st *Step) outcome {
 		val, cs := conv(st.V.goValue(), tString)
 		if cs == cErr {
 			return errOut("conv")
+		}
+		if cs == cUnspec {
+			return outcome{skip: "map_conversion_key_collision"}
 		}
 		o := outcome{mayErr: ix.float || cs == cEither, mutates: true}
 		o.apply = func(func() int) {
@@ -429,6 +445,9 @@ func planWrite(t target, st *Step) outcome {
 		val, cs := conv(st.V.goValue(), t.v.Type().Elem())
 		if cs == cErr {
 			return errOut("conv")
+		}
+		if cs == cUnspec {
+			return outcome{skip: "map_conversion_key_collision"}
 		}
 		return outcome{mayErr: cs == cEither, mutates: true, apply: func(func() int) { t.v.SetMapIndex(k, val) }}
 	}
@@ -484,6 +503,9 @@ func planApp(t target, dst target, st *Step) outcome {
 				}
 				elems = append(elems, ev)
 			}
+			if cs == cUnspec {
+				return outcome{skip: "map_conversion_key_collision"}
+			}
 			if perElem && known == "" && spare >= 1 && len(elems) > spare {
 				known = "growth"
 			}
@@ -495,6 +517,9 @@ func planApp(t target, dst target, st *Step) outcome {
 			ev, es := conv(st.V.goValue(), et)
 			if es == cErr {
 				return errOut("conv")
+			}
+			if es == cUnspec {
+				return outcome{skip: "map_conversion_key_collision"}
 			}
 			cs = es
 			elems = []reflect.Value{ev}
@@ -695,6 +720,9 @@ func planMwrite(t target, st *Step) outcome {
 		if cs == cErr {
 			return errOut("conv")
 		}
+		if cs == cUnspec {
+			return outcome{skip: "map_conversion_key_collision"}
+		}
 		return outcome{mayErr: cs == cEither, mutates: true, apply: func(func() int) { f.Set(val) }}
 	case "map":
 		kt := t.v.Type().Key()
@@ -708,6 +736,9 @@ func planMwrite(t target, st *Step) outcome {
 		val, cs := conv(st.V.goValue(), t.v.Type().Elem())
 		if cs == cErr {
 			return errOut("conv")
+		}
+		if cs == cUnspec {
+			return outcome{skip: "map_conversion_key_collision"}
 		}
 		return outcome{mayErr: cs == cEither, mutates: true, apply: func(func() int) { t.v.SetMapIndex(k, val) }}
 	}
